@@ -23,6 +23,8 @@ pub struct BedOpts {
     pub announce_port: Option<u16>,
     pub contacts: usize,
     pub peers_per_world_node: usize,
+    /// Probability that a datagram on this network is duplicated (half of them back to back).
+    pub dup_p: f64,
 }
 
 impl BedOpts {
@@ -35,6 +37,7 @@ impl BedOpts {
             announce_port: None,
             contacts: rng.gen_range(1..=8),
             peers_per_world_node: 0,
+            dup_p: 0.0,
         }
     }
 }
@@ -86,7 +89,9 @@ pub fn world_ids(rng: &mut ChaCha8Rng, n: usize, center: &Id, clustered: f64) ->
 impl Bed {
     pub async fn new(seed: u64, rng: &mut ChaCha8Rng, opts: &BedOpts) -> Bed {
         let net = Net::new(seed);
-        net.set_link(Link::uniform(5 * MS, 40 * MS));
+        let mut link = Link::uniform(5 * MS, 40 * MS);
+        link.dup_p = opts.dup_p;
+        net.set_link(link);
         let id = gen::rand_id(rng);
         let addr = node_addr(opts.v6, 1);
 
